@@ -193,6 +193,6 @@ theorem tgStep_sim {F : Prop} {p : Nat} (t u : Tokenizer) (c : Pre F p t u) (it 
           subst ru rt
           rfl
       · simp only [h3, if_false, Bool.false_eq_true]
-        exact ⟨next t, rfl, ct.1.toPre, it1, iu1, rfl, rfl, rfl, rfl⟩
+        exact ⟨next t, rfl, ct.1.toPre, it1, iu1, trivial, trivial, trivial, trivial⟩
 
 end Rio.Filter
